@@ -23,6 +23,9 @@ import PomerolModel.Spec.NormalizeSem
 import PomerolModel.Spec.OpTotal
 import PomerolModel.Spec.JW
 import PomerolModel.Spec.LatticeProps
+import PomerolModel.Spec.PresetSem
+import Mathlib.Algebra.Field.Rat
+import Mathlib.Tactic.NormNum
 
 set_option linter.unusedSectionVars false
 set_option linter.unusedVariables false
@@ -338,5 +341,490 @@ theorem hopping_term_denotation (r : CARRep K A) (tbl : List Idx.IndexInfo) (l1 
     Pomerol.Gen.Presets.hoppingOrbs, Pomerol.Gen.Presets.hoppingSpins, List.range_succ]
 
 end HoppingDenot
+
+/-! ## 4. the presets add the operators written in their documentation
+
+`Spec/PresetSem.lean` proves, for every preset of `LatticePresets`, which operator the terms it
+stores stand for.  `latSem r tbl L` there is `latticeDenot r L tbl` here (`latSem_eq_latticeDenot`),
+so by `hamiltonian_is_sum_of_terms` the Hamiltonian polynomial of the lattice changes by exactly
+that operator (`preset_changes_hamiltonian`).
+
+Setting: coefficients in a field `K`; `NonzeroTest.nz` (the model of `std::abs(x)` used as a truth
+value) is assumed to answer `false` only for `0` (`hnz`); the term storage is well formed (`LatWF`:
+true of the empty lattice, preserved by `addSite`, `storeTerm` and by every preset); an arbitrary
+representation `r` of the CAR with `c†_i² = 0` where `n² = n` is used; an arbitrary index table.
+`idxOf tbl l α σ` is the single-particle index of (site `l`, orbital `α`, spin `σ`),
+`num r x = c†_x c_x`. -/
+
+section PresetOperators
+open Pomerol.Spec.PresetSem Pomerol.Gen.Presets
+open scoped Pomerol.Spec.Exact
+variable {K A : Type} [Field K] [DecidableEq K] [NonzeroTest K] [Ring A] [Algebra K A]
+
+/-- the denotation used in `Spec/PresetSem.lean` is the one of `hamiltonian_is_sum_of_terms` -/
+theorem latSem_eq_latticeDenot (r : CARRep K A) (tbl : List Idx.IndexInfo) (L : Lat.Lattice K) :
+    latSem r tbl L = latticeDenot r L tbl := rfl
+
+/-- If going from `L` to `L'` adds the operator `x` to the sum of the stored terms, then the
+Hamiltonian `IndexHamiltonian::prepare` builds from `L'` is the one built from `L` plus `x`. -/
+theorem preset_changes_hamiltonian (r : CARRep K A) (hc : ∀ i, r.c i * r.c i = 0)
+    (hcd : ∀ i, r.cd i * r.cd i = 0) (tbl : List Idx.IndexInfo) (L L' : Lat.Lattice K) (x : A)
+    (h : Adds r tbl L L' x) (H H' : Poly K) (hH : Idx.indexHamiltonian L tbl = some H)
+    (hH' : Idx.indexHamiltonian L' tbl = some H') : r.poly H' = r.poly H + x := by
+  rw [hamiltonian_is_sum_of_terms r hc hcd L' tbl H' hH',
+    hamiltonian_is_sum_of_terms r hc hcd L tbl H hH, ← latSem_eq_latticeDenot,
+    ← latSem_eq_latticeDenot, h.2]
+
+variable (r : CARRep K A) (tbl : List Idx.IndexInfo)
+variable (hnz : ∀ x : K, NonzeroTest.nz x = false → x = 0)
+include hnz
+
+/-- `addLevel` on a site with `norb` orbitals and `nspin` spin components adds
+`ε Σ_{α<norb} Σ_{σ<nspin} n_{ασ}`. -/
+theorem level_adds_documented_operator (L L' : Lat.Lattice K) (l : String) (lv : K) (a : Site)
+    (ha : findSite L l = some a) (hwf : LatWF L) (h : addLevel L l lv = .ok L') :
+    LatWF L' ∧ latticeDenot r L' tbl = latticeDenot r L tbl +
+      lv • ∑ α ∈ Finset.range a.norb, ∑ σ ∈ Finset.range a.nspin, num r (idxOf tbl l α σ) :=
+  addLevel_sem hnz L L' l lv a ha hwf h
+
+omit hnz in
+/-- `addMagnetization` adds `mH Σ_α (n_{α↑} − n_{α↓})`.  The comment in `LatticePresets.h` announces
+`Σ_α mH ½ (n_{α↑} − n_{α↓})`: THE CODE ADDS TWICE THE DOCUMENTED OPERATOR. -/
+theorem magnetization_adds_twice_the_documented_field (h2 : (2 : K) ≠ 0) (L L' : Lat.Lattice K)
+    (l : String) (mH : K) (a : Site) (ha : findSite L l = some a) (hwf : LatWF L)
+    (h : addMagnetization L l mH = .ok L') :
+    LatWF L' ∧ latticeDenot r L' tbl = latticeDenot r L tbl +
+      (2 : K) • ∑ α ∈ Finset.range a.norb,
+        (mH * (2 : K)⁻¹) • (num r (idxOf tbl l α spinUp) - num r (idxOf tbl l α spinDown)) := by
+  obtain ⟨h1, h3⟩ := addMagnetization_sem (r := r) (tbl := tbl) L L' l mH a ha hwf h
+  refine ⟨h1, ?_⟩
+  rw [latSem_eq_latticeDenot, latSem_eq_latticeDenot] at h3
+  rw [h3, ← Finset.smul_sum, smul_smul, mul_comm mH, ← mul_assoc, mul_inv_cancel₀ h2, one_mul]
+
+/-- `addCoulombS` adds `U Σ_α Σ_{σ>σ'} n_{ασ} n_{ασ'} + ε Σ_{α,σ} n_{ασ}` (for two spin components:
+`U Σ_α n_{α↑} n_{α↓} + ε Σ_α (n_{α↑} + n_{α↓})`, see `addCoulombS_sem_two_spins`).  The formula in
+the comment of `LatticePresets.h` contains `U` twice (`U n U n`); the code adds `U n n`. -/
+theorem coulombS_adds_documented_operator (L L' : Lat.Lattice K) (l : String) (U lv : K) (a : Site)
+    (ha : findSite L l = some a) (hwf : LatWF L) (h : addCoulombS L l U lv = .ok L') :
+    LatWF L' ∧ latticeDenot r L' tbl = latticeDenot r L tbl +
+      coulombSOp r (idxOf tbl l) a.norb a.nspin U lv :=
+  addCoulombS_adds hnz L L' l U lv a ha hwf h
+
+/-- `addCoulombP` (Kanamori interaction, any number of orbitals ≥ 2 and spin components ≥ 2) adds
+`U Σ_{α,σ>σ'} n_{ασ} n_{ασ'} + U' Σ_{α≠α',σ>σ'} n_{ασ} n_{α'σ'} + (U'−J)/2 Σ_{α≠α',σ} n_{ασ} n_{α'σ}
+− J Σ_{α≠α',σ>σ'} (c†_{ασ} c†_{α'σ'} c_{α'σ} c_{ασ'} + c†_{ασ} c†_{ασ'} c_{α'σ} c_{α'σ'}) + ε Σ_{α,σ} n_{ασ}`
+(`kanamoriOp`; sums over `α ≠ α'` over ordered pairs), and the 5-argument overload adds the same
+with `U' = U − 2J`. -/
+theorem kanamori_adds_documented_operator :
+    (∀ (L L' : Lat.Lattice K) (l : String) (U Up J lv : K) (a : Site),
+      findSite L l = some a → LatWF L → addCoulombP L l U Up J lv = .ok L' →
+      LatWF L' ∧ latticeDenot r L' tbl = latticeDenot r L tbl +
+        kanamoriOp r (idxOf tbl l) a.norb a.nspin U Up J lv) ∧
+    (∀ (L L' : Lat.Lattice K) (l : String) (U J lv : K) (a : Site),
+      findSite L l = some a → LatWF L → addCoulombP' L l U J lv = .ok L' →
+      LatWF L' ∧ latticeDenot r L' tbl = latticeDenot r L tbl +
+        kanamoriOp r (idxOf tbl l) a.norb a.nspin U (U - 2 * J) J lv) :=
+  ⟨fun L L' l U Up J lv a ha hwf h => addCoulombP_sem hnz L L' l U Up J lv a ha hwf h,
+   fun L L' l U J lv a ha hwf h => addCoulombP'_sem hnz L L' l U J lv a ha hwf h⟩
+
+omit hnz in
+/-- `addSzSz` adds `J Σ_α S^z_{1α} S^z_{2α}`, `S^z = ½ (n_↑ − n_↓)` -- also when both labels name the
+same site, where the code stores `J/4 (n_↑ + n_↓ − n_↑ n_↓ − n_↓ n_↑)` (equal because `n² = n`). -/
+theorem szsz_adds_documented_operator (hcd : ∀ i, r.cd i * r.cd i = 0) (L L' : Lat.Lattice K)
+    (l1 l2 : String) (J : K) (a : Site) (ha : findSite L l1 = some a) (hwf : LatWF L)
+    (h : addSzSz L l1 l2 J = .ok L') :
+    LatWF L' ∧ latticeDenot r L' tbl = latticeDenot r L tbl +
+      J • ∑ α ∈ Finset.range a.norb,
+        sZ r (idxOf tbl l1 α spinUp) (idxOf tbl l1 α spinDown) *
+        sZ r (idxOf tbl l2 α spinUp) (idxOf tbl l2 α spinDown) :=
+  addSzSz_sem hcd L L' l1 l2 J a ha hwf h
+
+omit hnz in
+/-- `addSS` adds `J Σ_α [ S^z_{1α} S^z_{2α} + ½ (S⁺_{1α} S⁻_{2α} + S⁻_{1α} S⁺_{2α}) ]` (`ssLatOp`), with
+`S⁺ = c†_↑ c_↓`, `S⁻ = c†_↓ c_↑` -- also when both labels name the same site. -/
+theorem ss_adds_documented_operator (hcd : ∀ i, r.cd i * r.cd i = 0) (L L' : Lat.Lattice K)
+    (l1 l2 : String) (J : K) (a : Site) (ha : findSite L l1 = some a) (hwf : LatWF L)
+    (h : addSS L l1 l2 J = .ok L') :
+    LatWF L' ∧ latticeDenot r L' tbl = latticeDenot r L tbl + ssLatOp r tbl l1 l2 a.norb J :=
+  addSS_adds hcd L L' l1 l2 J a ha hwf h
+
+/-- The three overloads of `addHopping` add `t c†_1 c_2 + conj(t) c†_2 c_1` (`hopOp`) for the given
+orbitals and spins / summed over all spin components / summed over all orbitals and spin
+components (`cj` is `conj` in the complex build and the identity in the real build). -/
+theorem hopping_adds_documented_operator (cj : K → K) :
+    (∀ (L L' : Lat.Lattice K) (l1 l2 : String) (t : K) (o1 o2 s1 s2 : Nat), LatWF L →
+      addHoppingFull cj L l1 l2 t o1 o2 s1 s2 = .ok L' →
+      LatWF L' ∧ latticeDenot r L' tbl = latticeDenot r L tbl +
+        (t • (r.cd (idxOf tbl l1 o1 s1) * r.c (idxOf tbl l2 o2 s2)) +
+         cj t • (r.cd (idxOf tbl l2 o2 s2) * r.c (idxOf tbl l1 o1 s1)))) ∧
+    (∀ (L L' : Lat.Lattice K) (l1 l2 : String) (t : K) (o1 o2 : Nat) (a : Site),
+      findSite L l1 = some a → LatWF L → addHoppingOrb cj L l1 l2 t o1 o2 = .ok L' →
+      LatWF L' ∧ latticeDenot r L' tbl = latticeDenot r L tbl +
+        ∑ σ ∈ Finset.range a.nspin, hopOp r (idxOf tbl l1 o1 σ) (idxOf tbl l2 o2 σ) t (cj t)) ∧
+    (∀ (L L' : Lat.Lattice K) (l1 l2 : String) (t : K) (a : Site),
+      findSite L l1 = some a → LatWF L → addHoppingAll cj L l1 l2 t = .ok L' →
+      LatWF L' ∧ latticeDenot r L' tbl = latticeDenot r L tbl +
+        ∑ σ ∈ Finset.range a.nspin, ∑ α ∈ Finset.range a.norb,
+          hopOp r (idxOf tbl l1 α σ) (idxOf tbl l2 α σ) t (cj t)) :=
+  ⟨fun L L' l1 l2 t o1 o2 s1 s2 hwf h => addHoppingFull_sem hnz cj L L' l1 l2 t o1 o2 s1 s2 hwf h,
+   fun L L' l1 l2 t o1 o2 a ha hwf h => addHoppingOrb_adds hnz cj L L' l1 l2 t o1 o2 a ha hwf h,
+   fun L L' l1 l2 t a ha hwf h => addHoppingAll_adds hnz cj L L' l1 l2 t a ha hwf h⟩
+
+/-- **Every preset adds exactly the operator written in its documentation** (with the one deviation
+for `addMagnetization`, which adds twice the documented operator). -/
+theorem presets_add_documented_operators (hcd : ∀ i, r.cd i * r.cd i = 0) (cj : K → K)
+    (L L' : Lat.Lattice K) (hwf : LatWF L) (a : Site) :
+    (∀ l lv, findSite L l = some a → addLevel L l lv = .ok L' →
+      Adds r tbl L L' (levelOp r (idxOf tbl l) a.norb a.nspin lv)) ∧
+    (∀ l mH, findSite L l = some a → addMagnetization L l mH = .ok L' →
+      Adds r tbl L L' (magnetOp r (idxOf tbl l) a.norb mH)) ∧
+    (∀ l U lv, findSite L l = some a → addCoulombS L l U lv = .ok L' →
+      Adds r tbl L L' (coulombSOp r (idxOf tbl l) a.norb a.nspin U lv)) ∧
+    (∀ l U Up J lv, findSite L l = some a → addCoulombP L l U Up J lv = .ok L' →
+      Adds r tbl L L' (kanamoriOp r (idxOf tbl l) a.norb a.nspin U Up J lv)) ∧
+    (∀ l U J lv, findSite L l = some a → addCoulombP' L l U J lv = .ok L' →
+      Adds r tbl L L' (kanamoriOp r (idxOf tbl l) a.norb a.nspin U (U - 2 * J) J lv)) ∧
+    (∀ l1 l2 J, findSite L l1 = some a → addSzSz L l1 l2 J = .ok L' →
+      Adds r tbl L L' (szszOp r (fun α => idxOf tbl l1 α spinUp) (fun α => idxOf tbl l1 α spinDown)
+        (fun α => idxOf tbl l2 α spinUp) (fun α => idxOf tbl l2 α spinDown) a.norb J)) ∧
+    (∀ l1 l2 J, findSite L l1 = some a → addSS L l1 l2 J = .ok L' →
+      Adds r tbl L L' (ssLatOp r tbl l1 l2 a.norb J)) ∧
+    (∀ l1 l2 t o1 o2 s1 s2, addHoppingFull cj L l1 l2 t o1 o2 s1 s2 = .ok L' →
+      Adds r tbl L L' (hopOp r (idxOf tbl l1 o1 s1) (idxOf tbl l2 o2 s2) t (cj t))) ∧
+    (∀ l1 l2 t o1 o2, findSite L l1 = some a → addHoppingOrb cj L l1 l2 t o1 o2 = .ok L' →
+      Adds r tbl L L' (∑ σ ∈ Finset.range a.nspin,
+        hopOp r (idxOf tbl l1 o1 σ) (idxOf tbl l2 o2 σ) t (cj t))) ∧
+    (∀ l1 l2 t, findSite L l1 = some a → addHoppingAll cj L l1 l2 t = .ok L' →
+      Adds r tbl L L' (∑ σ ∈ Finset.range a.nspin, ∑ α ∈ Finset.range a.norb,
+        hopOp r (idxOf tbl l1 α σ) (idxOf tbl l2 α σ) t (cj t))) :=
+  ⟨fun l lv ha h => addLevel_adds hnz L L' l lv a ha hwf h,
+   fun l mH ha h => addMagnetization_adds L L' l mH a ha hwf h,
+   fun l U lv ha h => addCoulombS_adds hnz L L' l U lv a ha hwf h,
+   fun l U Up J lv ha h => addCoulombP_sem hnz L L' l U Up J lv a ha hwf h,
+   fun l U J lv ha h => addCoulombP'_sem hnz L L' l U J lv a ha hwf h,
+   fun l1 l2 J ha h => addSzSz_adds hcd L L' l1 l2 J a ha hwf h,
+   fun l1 l2 J ha h => addSS_adds hcd L L' l1 l2 J a ha hwf h,
+   fun l1 l2 t o1 o2 s1 s2 h => addHoppingFull_adds hnz cj L L' l1 l2 t o1 o2 s1 s2 hwf h,
+   fun l1 l2 t o1 o2 ha h => addHoppingOrb_adds hnz cj L L' l1 l2 t o1 o2 a ha hwf h,
+   fun l1 l2 t ha h => addHoppingAll_adds hnz cj L L' l1 l2 t a ha hwf h⟩
+
+end PresetOperators
+
+/-! ## 5. Hermiticity -/
+
+section Hermiticity
+open Pomerol.Spec.PresetSem Pomerol.Gen.Presets
+variable {K A : Type} [Field K] [StarRing K] [Ring A] [StarRing A] [Algebra K A] [StarModule K A]
+
+/-- **The operators the presets add are Hermitian** for real parameters (`star x = x`; for the hopping:
+second amplitude = conjugate of the first), in every representation of the CAR in a `*`-algebra in
+which `c†_i` is the adjoint of `c_i` (`hs`) -- e.g. operators on a Hilbert space with `star` =
+adjoint.  `idx α σ`, `idx1`, `idx2`: single-particle indices of (orbital, spin) of the site(s).
+The exchange between two different sites needs that the two sites have different indices. -/
+theorem presets_are_hermitian (r : CARRep K A) (hs : ∀ i, star (r.c i) = r.cd i)
+    (idx idx1 idx2 : Nat → Nat → Nat) (norb nspin : Nat) :
+    (∀ lv : K, star lv = lv → IsSelfAdjoint (levelOp r idx norb nspin lv)) ∧
+    (∀ mH : K, star mH = mH → IsSelfAdjoint (magnetOp r idx norb mH)) ∧
+    (∀ U lv : K, star U = U → star lv = lv → IsSelfAdjoint (coulombSOp r idx norb nspin U lv)) ∧
+    (∀ U Up J lv : K, star U = U → star Up = Up → star J = J → star lv = lv →
+      IsSelfAdjoint (kanamoriOp r idx norb nspin U Up J lv)) ∧
+    (∀ J : K, star J = J →
+      IsSelfAdjoint (szszOp r (fun α => idx1 α spinUp) (fun α => idx1 α spinDown)
+        (fun α => idx2 α spinUp) (fun α => idx2 α spinDown) norb J)) ∧
+    (∀ J : K, star J = J →
+      IsSelfAdjoint (ssOp r (fun α => idx α spinUp) (fun α => idx α spinDown)
+        (fun α => idx α spinUp) (fun α => idx α spinDown) norb J)) ∧
+    (∀ J : K, star J = J → (∀ α < norb, idx1 α spinUp ≠ idx2 α spinUp) →
+      (∀ α < norb, idx1 α spinDown ≠ idx2 α spinDown) →
+      IsSelfAdjoint (ssOp r (fun α => idx1 α spinUp) (fun α => idx1 α spinDown)
+        (fun α => idx2 α spinUp) (fun α => idx2 α spinDown) norb J)) ∧
+    (∀ (x y : Nat) (t : K), IsSelfAdjoint (hopOp r x y t (star t))) ∧
+    (∀ (o1 o2 : Nat) (t : K), IsSelfAdjoint
+      (∑ σ ∈ Finset.range nspin, hopOp r (idx1 o1 σ) (idx2 o2 σ) t (star t))) ∧
+    (∀ t : K, IsSelfAdjoint (∑ σ ∈ Finset.range nspin, ∑ α ∈ Finset.range norb,
+      hopOp r (idx1 α σ) (idx2 α σ) t (star t))) :=
+  ⟨fun lv h => levelOp_selfAdjoint r hs idx norb nspin lv h,
+   fun mH h => magnetOp_selfAdjoint r hs idx norb mH h,
+   fun U lv hU hlv => coulombSOp_selfAdjoint r hs idx norb nspin U lv hU hlv,
+   fun U Up J lv hU hUp hJ hlv => kanamoriOp_selfAdjoint r hs idx norb nspin U Up J lv hU hUp hJ hlv,
+   fun J hJ => szszOp_selfAdjoint r hs _ _ _ _ norb J hJ,
+   fun J hJ => ssOp_selfAdjoint_same_site r hs _ _ norb J hJ,
+   fun J hJ hu hd => ssOp_selfAdjoint_two_sites r hs _ _ _ _ norb J hJ hu hd,
+   fun x y t => hopOp_selfAdjoint r hs x y t,
+   fun o1 o2 t => isSelfAdjoint_sum _ (fun σ _ => hopOp_selfAdjoint r hs _ _ t),
+   fun t => isSelfAdjoint_sum _ (fun σ _ => isSelfAdjoint_sum _
+     (fun α _ => hopOp_selfAdjoint r hs _ _ t))⟩
+
+end Hermiticity
+
+/-! ## 6. SU(2) invariance -/
+
+section SU2
+open Pomerol.Spec.PresetSem Pomerol.Gen.Presets Pomerol.Spec.LatticeProps
+variable {K A : Type} [Field K] [DecidableEq K] [NonzeroTest K] [Ring A] [Algebra K A]
+variable (r : CARRep K A) (hc : ∀ i, r.c i * r.c i = 0) (hcd : ∀ i, r.cd i * r.cd i = 0)
+variable (h2 : (2 : K) ≠ 0) (tbl : List Idx.IndexInfo)
+
+theorem findSite_mem (L : Lat.Lattice K) (l : String) (a : Site) (ha : findSite L l = some a) :
+    a ∈ L.sites ∧ a.label = l := by
+  unfold findSite at ha
+  exact ⟨List.mem_of_find?_eq_some ha, by simpa using List.find?_some ha⟩
+
+include hc hcd h2
+
+/-- **The Kanamori interaction is SU(2) invariant.**  The operator `addCoulombP` adds to a site with
+two spin components -- for EVERY number of orbitals; with `U' = U − 2J` (5-argument overload) and,
+more generally, for every `U'` -- commutes with `S⁺ = Σ c†_{↑} c_{↓}` and `S⁻ = Σ c†_{↓} c_{↑}` summed
+over any set `P` of orbitals of the lattice that contains the orbitals of the site and whose spin
+components are entries of the index table (`InTable`; for ALL orbitals of ALL sites see
+`kanamori_commutes_with_total_spin`). -/
+theorem kanamori_su2_invariant (hnz : ∀ x : K, NonzeroTest.nz x = false → x = 0)
+    (P : Finset (String × Nat)) (hP : InTable tbl P) (L L' : Lat.Lattice K) (l : String)
+    (U J lv : K) (a : Site) (ha : findSite L l = some a) (hsp : a.nspin = 2)
+    (hl : ∀ α < a.norb, (l, α) ∈ P) (hwf : LatWF L) (h : addCoulombP' L l U J lv = .ok L') :
+    latticeDenot r L' tbl =
+      latticeDenot r L tbl + kanamoriOp r (idxOf tbl l) a.norb 2 U (U - 2 * J) J lv ∧
+    kanamoriOp r (idxOf tbl l) a.norb 2 U (U - 2 * J) J lv * latSplus r tbl P =
+      latSplus r tbl P * kanamoriOp r (idxOf tbl l) a.norb 2 U (U - 2 * J) J lv ∧
+    kanamoriOp r (idxOf tbl l) a.norb 2 U (U - 2 * J) J lv * latSminus r tbl P =
+      latSminus r tbl P * kanamoriOp r (idxOf tbl l) a.norb 2 U (U - 2 * J) J lv := by
+  have h1 := (addCoulombP'_sem (r := r) (tbl := tbl) hnz L L' l U J lv a ha hwf h).2
+  rw [hsp] at h1
+  obtain ⟨h3, h4⟩ := kanamori_su2 hc hcd h2 hP l a.norb hl U (U - 2 * J) J lv
+  exact ⟨h1, sub_eq_zero.mp h3, sub_eq_zero.mp h4⟩
+
+omit [DecidableEq K] [NonzeroTest K] in
+/-- the general statement: all `U`, `U'`, `J`, `ε` (spin-rotation invariance does not need
+`U' = U − 2J`) -/
+theorem kanamori_su2_invariant_general (P : Finset (String × Nat)) (hP : InTable tbl P)
+    (l : String) (norb : Nat) (hl : ∀ α < norb, (l, α) ∈ P) (U Up J lv : K) :
+    kanamoriOp r (idxOf tbl l) norb 2 U Up J lv * latSplus r tbl P =
+      latSplus r tbl P * kanamoriOp r (idxOf tbl l) norb 2 U Up J lv ∧
+    kanamoriOp r (idxOf tbl l) norb 2 U Up J lv * latSminus r tbl P =
+      latSminus r tbl P * kanamoriOp r (idxOf tbl l) norb 2 U Up J lv := by
+  obtain ⟨h3, h4⟩ := kanamori_su2 hc hcd h2 hP l norb hl U Up J lv
+  exact ⟨sub_eq_zero.mp h3, sub_eq_zero.mp h4⟩
+
+/-- With the index table `IndexClassification` builds for the lattice (either ordering mode) and
+`S^±` summed over ALL orbitals of ALL sites of the lattice (every site having at least the two spin
+components `↑ = 1`, `↓ = 0`): the operator `addCoulombP(L, l, U, J, ε)` adds commutes with the total
+`S⁺` and `S⁻`. -/
+theorem kanamori_commutes_with_total_spin (hnz : ∀ x : K, NonzeroTest.nz x = false → x = 0)
+    (L L' : Lat.Lattice K) (mode : Bool) (hd : (L.sites.map (·.label)).Nodup)
+    (hs : ∀ s ∈ L.sites, 2 ≤ s.nspin) (l : String) (U J lv : K) (a : Site)
+    (ha : findSite L l = some a) (hsp : a.nspin = 2) (hwf : LatWF L)
+    (h : addCoulombP' L l U J lv = .ok L') :
+    ∃ X : A, latticeDenot r L' (Idx.enumerate L.sites mode) =
+        latticeDenot r L (Idx.enumerate L.sites mode) + X ∧
+      X * latSplus r (Idx.enumerate L.sites mode) (allOrbitals L.sites) =
+        latSplus r (Idx.enumerate L.sites mode) (allOrbitals L.sites) * X ∧
+      X * latSminus r (Idx.enumerate L.sites mode) (allOrbitals L.sites) =
+        latSminus r (Idx.enumerate L.sites mode) (allOrbitals L.sites) * X := by
+  obtain ⟨hm, hlab⟩ := findSite_mem L l a ha
+  refine ⟨_, kanamori_su2_invariant r hc hcd h2 _ hnz (allOrbitals L.sites)
+    (allOrbitals_in_table L.sites hd mode hs) L L' l U J lv a ha hsp ?_ hwf h⟩
+  intro α hα
+  rw [mem_allOrbitals]
+  exact ⟨a, hm, hlab, hα⟩
+
+omit hc in
+/-- **The spin-spin exchange is SU(2) invariant.**  The operator `addSS` adds between two sites -- or
+on one site (`l1 = l2`) -- commutes with `S⁺` and `S⁻` summed over any set of orbitals of the lattice
+that contains the orbitals of both sites. -/
+theorem spin_exchange_su2_invariant (P : Finset (String × Nat)) (hP : InTable tbl P)
+    (L L' : Lat.Lattice K) (l1 l2 : String) (J : K) (a : Site) (ha : findSite L l1 = some a)
+    (hl1 : ∀ α < a.norb, (l1, α) ∈ P) (hl2 : ∀ α < a.norb, (l2, α) ∈ P) (hwf : LatWF L)
+    (h : addSS L l1 l2 J = .ok L') :
+    latticeDenot r L' tbl = latticeDenot r L tbl + ssLatOp r tbl l1 l2 a.norb J ∧
+    ssLatOp r tbl l1 l2 a.norb J * latSplus r tbl P =
+      latSplus r tbl P * ssLatOp r tbl l1 l2 a.norb J ∧
+    ssLatOp r tbl l1 l2 a.norb J * latSminus r tbl P =
+      latSminus r tbl P * ssLatOp r tbl l1 l2 a.norb J := by
+  have h1 := (addSS_adds (r := r) (tbl := tbl) hcd L L' l1 l2 J a ha hwf h).2
+  obtain ⟨h3, h4⟩ := ss_su2 (r := r) h2 hP l1 l2 a.norb hl1 hl2 J
+  exact ⟨h1, sub_eq_zero.mp h3, sub_eq_zero.mp h4⟩
+
+omit hc in
+/-- the same with the table of the lattice and `S^±` summed over ALL orbitals of ALL sites -/
+theorem spin_exchange_commutes_with_total_spin (L L' : Lat.Lattice K) (mode : Bool)
+    (hd : (L.sites.map (·.label)).Nodup) (hs : ∀ s ∈ L.sites, 2 ≤ s.nspin) (l1 l2 : String)
+    (J : K) (hwf : LatWF L) (h : addSS L l1 l2 J = .ok L') :
+    ∃ X : A, latticeDenot r L' (Idx.enumerate L.sites mode) =
+        latticeDenot r L (Idx.enumerate L.sites mode) + X ∧
+      X * latSplus r (Idx.enumerate L.sites mode) (allOrbitals L.sites) =
+        latSplus r (Idx.enumerate L.sites mode) (allOrbitals L.sites) * X ∧
+      X * latSminus r (Idx.enumerate L.sites mode) (allOrbitals L.sites) =
+        latSminus r (Idx.enumerate L.sites mode) (allOrbitals L.sites) * X := by
+  obtain ⟨a, b, ha, hb, hnorb, _, _⟩ := ss_facts L l1 l2 (addSS_guard L L' l1 l2 J h)
+  obtain ⟨hma, hla⟩ := findSite_mem L l1 a ha
+  obtain ⟨hmb, hlb⟩ := findSite_mem L l2 b hb
+  refine ⟨_, spin_exchange_su2_invariant r hcd h2 _ (allOrbitals L.sites)
+    (allOrbitals_in_table L.sites hd mode hs) L L' l1 l2 J a ha ?_ ?_ hwf h⟩
+  · intro α hα
+    rw [mem_allOrbitals]
+    exact ⟨a, hma, hla, hα⟩
+  · intro α hα
+    rw [mem_allOrbitals]
+    exact ⟨b, hmb, hlb, hnorb ▸ hα⟩
+
+end SU2
+
+/-! ## 7. runs of the executable model and non-vacuity -/
+
+section Examples
+open Pomerol.Spec.PresetSem Pomerol.Gen.Presets
+
+/-- `std::abs(x)` as a truth value, for exact rational amplitudes -/
+local instance : NonzeroTest ℚ := ⟨fun x => x != 0⟩
+
+/-- one site "A" with 2 orbitals and 2 spin components, no terms -/
+private def exSite : Lat.Lattice ℚ := addSite Lat.empty "A" 2 2
+
+/-- (operator sequence, orbitals, spins, amplitude) of the stored terms of order `n` -/
+private def stored (L : Except Exc (Lat.Lattice ℚ)) (n : Nat) :
+    List (List Bool × List Nat × List Nat × ℚ) :=
+  match L with
+  | .ok L => (getTerms L n).map fun (t : Term ℚ) => (t.ops, t.orbs, t.spins, t.value)
+  | .error _ => []
+
+/-- RUN OF THE EXECUTABLE MODEL: `addCoulombP(L, "A", U = 4, J = 1, ε = −2)` on the 2-orbital site
+stores these twelve 4-operator terms, in this order (per orbital `i` and spin `z1`: the same-spin
+density terms with `(U'−J)/2 = 1/2`; then for `z1 = ↑, z2 = ↓`: `U n_{i↑} n_{i↓}`, `U' n_{i↑} n_{j↓}` with
+`U' = U − 2J = 2`, spin flip `−J`, pair hopping `−J`) and four level terms. -/
+example :
+    stored (addCoulombP' exSite "A" 4 1 (-2)) 4 =
+      [([true, false, true, false], [0, 0, 1, 1], [0, 0, 0, 0], 1 / 2),
+       ([true, false, true, false], [0, 0, 1, 1], [1, 1, 1, 1], 1 / 2),
+       ([true, false, true, false], [0, 0, 0, 0], [1, 1, 0, 0], 4),
+       ([true, false, true, false], [0, 0, 1, 1], [1, 1, 0, 0], 2),
+       ([true, true, false, false], [0, 1, 1, 0], [1, 0, 1, 0], -1),
+       ([true, true, false, false], [0, 0, 1, 1], [1, 0, 1, 0], -1),
+       ([true, false, true, false], [1, 1, 0, 0], [0, 0, 0, 0], 1 / 2),
+       ([true, false, true, false], [1, 1, 0, 0], [1, 1, 1, 1], 1 / 2),
+       ([true, false, true, false], [1, 1, 1, 1], [1, 1, 0, 0], 4),
+       ([true, false, true, false], [1, 1, 0, 0], [1, 1, 0, 0], 2),
+       ([true, true, false, false], [1, 0, 0, 1], [1, 0, 1, 0], -1),
+       ([true, true, false, false], [1, 1, 0, 0], [1, 0, 1, 0], -1)] ∧
+    stored (addCoulombP' exSite "A" 4 1 (-2)) 2 =
+      [([true, false], [0, 0], [0, 0], -2), ([true, false], [0, 0], [1, 1], -2),
+       ([true, false], [1, 1], [0, 0], -2), ([true, false], [1, 1], [1, 1], -2)] := by
+  decide +kernel
+
+/-- NON-VACUITY: all hypotheses of `kanamori_su2_invariant` hold for this run, the Jordan-Wigner
+representation and the index table of the lattice; so the Hamiltonian of the 2-orbital Kanamori
+site is `kanamoriOp` and commutes with the total `S⁺` and `S⁻`. -/
+example : ∃ L', addCoulombP' exSite "A" 4 1 (-2) = .ok L' ∧
+    latticeDenot (jwRep ℚ) L' (Idx.enumerate exSite.sites false) =
+      kanamoriOp (jwRep ℚ) (idxOf (Idx.enumerate exSite.sites false) "A") 2 2 4 (4 - 2 * 1) 1 (-2) ∧
+    kanamoriOp (jwRep ℚ) (idxOf (Idx.enumerate exSite.sites false) "A") 2 2 4 (4 - 2 * 1) 1 (-2) *
+        latSplus (jwRep ℚ) (Idx.enumerate exSite.sites false) (allOrbitals exSite.sites) =
+      latSplus (jwRep ℚ) (Idx.enumerate exSite.sites false) (allOrbitals exSite.sites) *
+        kanamoriOp (jwRep ℚ) (idxOf (Idx.enumerate exSite.sites false) "A") 2 2 4 (4 - 2 * 1) 1 (-2) := by
+  have hok : ∃ L', addCoulombP' exSite "A" (4 : ℚ) 1 (-2) = .ok L' := by
+    cases h : addCoulombP' exSite "A" (4 : ℚ) 1 (-2) with
+    | ok L' => exact ⟨L', rfl⟩
+    | error e =>
+      have : (addCoulombP' exSite "A" (4 : ℚ) 1 (-2)).toBool = true := by decide +kernel
+      rw [h] at this
+      cases this
+  obtain ⟨L', hL'⟩ := hok
+  have hnz : ∀ x : ℚ, NonzeroTest.nz x = false → x = 0 := by
+    intro x hx
+    simpa [NonzeroTest.nz] using hx
+  have hsites : exSite.sites = [⟨"A", 2, 2⟩] := by decide
+  have hfind : findSite exSite "A" = some ⟨"A", 2, 2⟩ := by decide
+  have hP : InTable (Idx.enumerate exSite.sites false) (allOrbitals exSite.sites) :=
+    allOrbitals_in_table exSite.sites (by rw [hsites]; decide) false
+      (by rw [hsites]; intro s hs; simp only [List.mem_singleton] at hs; subst hs; decide)
+  have hl : ∀ α < 2, ("A", α) ∈ allOrbitals exSite.sites := by
+    intro α hα
+    rw [mem_allOrbitals, hsites]
+    exact ⟨⟨"A", 2, 2⟩, by simp, rfl, hα⟩
+  obtain ⟨h1, h3, _⟩ := kanamori_su2_invariant (jwRep ℚ) (jw_sq_c ℚ) (jw_sq_cd ℚ) (by norm_num)
+    (Idx.enumerate exSite.sites false) hnz (allOrbitals exSite.sites) hP exSite L' "A" 4 1 (-2)
+    ⟨"A", 2, 2⟩ hfind rfl hl (latWF_addSite _ latWF_empty _ _ _) hL'
+  refine ⟨L', hL', ?_, h3⟩
+  rw [h1]
+  have : latticeDenot (jwRep ℚ) exSite (Idx.enumerate exSite.sites false) = 0 := by
+    simp [latticeDenot, exSite, addSite, Lat.empty]
+  rw [this, zero_add]
+
+/-- two sites "A", "B" with one orbital and 2 spin components -/
+private def exTwo : Lat.Lattice ℚ := addSite (addSite Lat.empty "A" 1 2) "B" 1 2
+
+private def storedL (L : Except Exc (Lat.Lattice ℚ)) (n : Nat) :
+    List (List Bool × List String × List Nat × ℚ) :=
+  match L with
+  | .ok L => (getTerms L n).map fun (t : Term ℚ) => (t.ops, t.labels, t.spins, t.value)
+  | .error _ => []
+
+/-- RUN OF THE EXECUTABLE MODEL: `addSS(L, "A", "B", J = 4)` stores `∓J/4 n n` (four terms) and
+`J/2 S⁺S⁻`, `J/2 S⁻S⁺`; with both labels equal to "A" the same-spin products are replaced by the two
+level terms `J/4 n_↑`, `J/4 n_↓` (the code's `n² = n`). -/
+example :
+    storedL (addSS exTwo "A" "B" 4) 4 =
+      [([true, false, true, false], ["A", "A", "B", "B"], [1, 1, 0, 0], -1),
+       ([true, false, true, false], ["A", "A", "B", "B"], [0, 0, 1, 1], -1),
+       ([true, false, true, false], ["A", "A", "B", "B"], [1, 1, 1, 1], 1),
+       ([true, false, true, false], ["A", "A", "B", "B"], [0, 0, 0, 0], 1),
+       ([true, false, true, false], ["A", "A", "B", "B"], [1, 0, 0, 1], 2),
+       ([true, false, true, false], ["A", "A", "B", "B"], [0, 1, 1, 0], 2)] := by
+  decide +kernel
+
+example :
+    storedL (addSS exTwo "A" "A" 4) 4 =
+      [([true, false, true, false], ["A", "A", "A", "A"], [1, 1, 0, 0], -1),
+       ([true, false, true, false], ["A", "A", "A", "A"], [0, 0, 1, 1], -1),
+       ([true, false, true, false], ["A", "A", "A", "A"], [1, 0, 0, 1], 2),
+       ([true, false, true, false], ["A", "A", "A", "A"], [0, 1, 1, 0], 2)] ∧
+    storedL (addSS exTwo "A" "A" 4) 2 =
+      [([true, false], ["A", "A"], [1, 1], 1), ([true, false], ["A", "A"], [0, 0], 1)] := by
+  decide +kernel
+
+/-- NON-VACUITY of `presets_are_hermitian`: the universal `*`-algebra of the CAR over `ℚ`
+(`Spec/PresetSem.lean`: `CARAlg`, shown to be non-zero by mapping it onto the Jordan-Wigner
+operators) carries a representation with `star c_i = c†_i`; in it every preset operator with
+rational parameters is Hermitian. -/
+example : (1 : CARAlg) ≠ 0 ∧ ∀ (idx : Nat → Nat → Nat) (norb nspin : Nat) (U J lv : ℚ),
+    IsSelfAdjoint (kanamoriOp carStarRep idx norb nspin U (U - 2 * J) J lv) ∧
+    IsSelfAdjoint (ssOp carStarRep (fun α => idx α spinUp) (fun α => idx α spinDown)
+      (fun α => idx α spinUp) (fun α => idx α spinDown) norb J) :=
+  ⟨carAlg_nontrivial, fun idx norb nspin U J lv =>
+    ⟨(presets_are_hermitian carStarRep carStarRep_star idx idx idx norb nspin).2.2.2.1
+        U (U - 2 * J) J lv rfl rfl rfl rfl,
+     (presets_are_hermitian carStarRep carStarRep_star idx idx idx norb nspin).2.2.2.2.2.1 J rfl⟩⟩
+
+/-- NON-VACUITY of `spin_exchange_commutes_with_total_spin`: it applies to the runs `addSS(L,"A","B",4)`
+and `addSS(L,"A","A",4)` (same site) on the two-site lattice, with the Jordan-Wigner representation. -/
+example (l2 : String) (hl2 : l2 = "B" ∨ l2 = "A") : ∃ (L' : Lat.Lattice ℚ)
+    (X : Module.End ℚ (ℕ →₀ ℚ)), addSS exTwo "A" l2 4 = .ok L' ∧
+    latticeDenot (jwRep ℚ) L' (Idx.enumerate exTwo.sites false) =
+      latticeDenot (jwRep ℚ) exTwo (Idx.enumerate exTwo.sites false) + X ∧
+    X * latSplus (jwRep ℚ) (Idx.enumerate exTwo.sites false) (allOrbitals exTwo.sites) =
+      latSplus (jwRep ℚ) (Idx.enumerate exTwo.sites false) (allOrbitals exTwo.sites) * X ∧
+    X * latSminus (jwRep ℚ) (Idx.enumerate exTwo.sites false) (allOrbitals exTwo.sites) =
+      latSminus (jwRep ℚ) (Idx.enumerate exTwo.sites false) (allOrbitals exTwo.sites) * X := by
+  have hok : ∃ L', addSS exTwo "A" l2 (4 : ℚ) = .ok L' := by
+    have key : ∀ (x : Except Exc (Lat.Lattice ℚ)), x.toBool = true → ∃ L', x = .ok L' := by
+      intro x hx
+      cases x with
+      | ok L' => exact ⟨L', rfl⟩
+      | error e => cases hx
+    rcases hl2 with rfl | rfl
+    · exact key _ (by decide +kernel)
+    · exact key _ (by decide +kernel)
+  obtain ⟨L', hL'⟩ := hok
+  have hsites : exTwo.sites = [⟨"A", 1, 2⟩, ⟨"B", 1, 2⟩] := by decide
+  obtain ⟨X, h1, h2, h3⟩ := spin_exchange_commutes_with_total_spin (jwRep ℚ) (jw_sq_cd ℚ)
+    (by norm_num) exTwo L' false (by rw [hsites]; decide)
+    (by
+      rw [hsites]
+      intro s hs
+      simp only [List.mem_cons, List.not_mem_nil, or_false] at hs
+      rcases hs with rfl | rfl <;> decide)
+    "A" l2 4 (latWF_addSite _ (latWF_addSite _ latWF_empty _ _ _) _ _ _) hL'
+  exact ⟨L', X, hL', h1, h2, h3⟩
+
+end Examples
 
 end Pomerol.Properties.C04
